@@ -97,6 +97,13 @@ def val_text(s, k, v):
     return TH.val_text(s, k, v)
 
 
+def op_val_text(o):
+    """the value of an override / addition as typed: with the spelled-out key variant the whole item is typed the way a line of
+    the file is ('KEY = VALUE '), so the value arrives with blanks around it - which a file's line would not keep"""
+    v = TH.val_text(o["s"], o["k"], o["v"])
+    return " %s " % v if o.get("ws") == 1 else v
+
+
 def render_file(f):
     return TH.render_file(f)
 
@@ -118,11 +125,11 @@ def cli_args(ops):
     for o in ops:
         sk = "%s:%s" % (SECTION[o["s"]], key_text(o["s"], o["k"], o["ws"]))
         if o["kind"] == "ovr":
-            args += ["-e", "%s=%s" % (sk, val_text(o["s"], o["k"], o["v"]))]
+            args += ["-e", "%s=%s" % (sk, op_val_text(o))]
         elif o["kind"] == "rem":
             args += ["-r", sk]
         else:
-            args += ["-a", "%s=%s" % (sk, val_text(o["s"], o["k"], o["v"]))]
+            args += ["-a", "%s=%s" % (sk, op_val_text(o))]
     return args
 
 
@@ -140,10 +147,10 @@ def tabulate_text(text):
 
 
 def tabulate_api(text, ops):
-    ov = [ConfigParserOverrideTuple(SECTION[o["s"]], key_text(o["s"], o["k"], o["ws"]), val_text(o["s"], o["k"], o["v"]))
+    ov = [ConfigParserOverrideTuple(SECTION[o["s"]], key_text(o["s"], o["k"], o["ws"]), op_val_text(o))
           for o in ops if o["kind"] == "ovr"]
     ov += [ConfigParserOverrideTuple(SECTION[o["s"]], key_text(o["s"], o["k"], o["ws"]), None) for o in ops if o["kind"] == "rem"]
-    ad = [ConfigParserOverrideTuple(SECTION[o["s"]], key_text(o["s"], o["k"], o["ws"]), val_text(o["s"], o["k"], o["v"]))
+    ad = [ConfigParserOverrideTuple(SECTION[o["s"]], key_text(o["s"], o["k"], o["ws"]), op_val_text(o))
           for o in ops if o["kind"] == "add"]
     try:
         cp = ConfigParser(io.StringIO(text), overrides=ov, additional=ad)
@@ -315,9 +322,9 @@ def c14_traces(run, tier, seed):
                 ops2.append(o)
             ops = ops2
             text = render_file(f)
-            ov = [ConfigParserOverrideTuple(SECTION[o["s"]], key_text(o["s"], o["k"], o["ws"]), val_text(o["s"], o["k"], o["v"])) for o in ops if o["kind"] == "ovr"]
+            ov = [ConfigParserOverrideTuple(SECTION[o["s"]], key_text(o["s"], o["k"], o["ws"]), op_val_text(o)) for o in ops if o["kind"] == "ovr"]
             ov += [ConfigParserOverrideTuple(SECTION[o["s"]], key_text(o["s"], o["k"], o["ws"]), None) for o in ops if o["kind"] == "rem"]
-            ad = [ConfigParserOverrideTuple(SECTION[o["s"]], key_text(o["s"], o["k"], o["ws"]), val_text(o["s"], o["k"], o["v"])) for o in ops if o["kind"] == "add"]
+            ad = [ConfigParserOverrideTuple(SECTION[o["s"]], key_text(o["s"], o["k"], o["ws"]), op_val_text(o)) for o in ops if o["kind"] == "add"]
             # the API route applies the list as given; the spec's merge rule is the CLI's: observe through the CLI listing
             got = query_cli(text, cli_args(ops), d, ["--list-items"])
             run.evaluations += 1
